@@ -11,7 +11,7 @@ from plans import PLANS, LEVELS  # noqa: E402
 
 TEXT = {
     "C01": ("reference-model monitor over random create/delete/maintain histories (uniqueness set + allocator invariant hook), Miri/ASan on the same workload",
-            "Every handle returned by any of the nine creation paths is checked at the moment of return against the set of all handles ever returned and against the occupant of its index; after every operation the verif-hooks snapshot of the allocator (generations / alive / raised / killed / free list / max_id) is checked for structural invariants. Exploration of seeded random histories with planted 4-7 step motifs; thorough adds release builds, long histories, Miri and ASan.",
+            "Every handle returned by any of the nine creation paths is checked at the moment of return against the set of all handles ever returned and against the occupant of its index; after every operation the verif-hooks snapshot of the allocator (generations / alive / raised / killed / free list / max_id) is checked for structural invariants. Exploration of seeded random histories with planted 4-7 step motifs; thorough adds long histories, Miri and ASan. The concurrency engine (scheduler-driven and free-running threads creating through shared access) runs under this check too: a handle returned to two threads is a C01 violation.",
             "3.C01"),
     "C02": ("lifecycle reference model compared step-by-step with Entities::is_alive / World::is_alive / deletion results / entities join",
             "After every operation of a random history the results of deletions (incl. failing batches with repeated and dead handles), the entities join and aliveness of every handle ever returned (all of them for small histories, latest stale handle per index plus a sample otherwise) are compared with a create/delete/maintain timeline model; the allocator's pending sets are cross-checked through the hook.",
@@ -23,19 +23,19 @@ TEXT = {
             "After every operation the mask and every value of every registered storage is compared with the model: a deleted entity's components are gone from all storages (and their destructors ran, per ledger), survivors are untouched, new entities (incl. on reused indices) own exactly what they were given.",
             "3.C05"),
     "C08": ("construction/destruction ledger of instrumented component values (conservation, exactly-once), physical counterpart under Miri and ASan/LSan",
-            "Every value moved into a world carries a unique id, a check word and a heap box; the ledger flags double drops, double returns, exposure after return/destruction, never-written slots, and - after drop(world) - leaks. Zero-sized components are balanced by counters.",
+            "Every value moved into a world carries a unique id, a check word and a heap box; the ledger flags double drops, double returns, exposure after return/destruction, never-written slots, and - after drop(world) - leaks. Zero-sized components are balanced by counters. The fault grid of C19 (injected destructor / Default panics) runs under this check as well: after a caught panic nothing may be destroyed twice; the mask-update-unwinds scenario (index beyond the bit set range) checks the RemoveOnDrop guard.",
             "3.C08"),
     "C09": ("lazy-queue reference model + execution log of queued closures, full-state comparison after every maintain",
             "Queued closures carry unique ids and log their observations (aliveness of deferred creations/deletions, component presence) while running; the model executes the same FIFO (nested enqueues run later in the same maintain), then log order, multiplicity, maintain number and the complete world state must agree; a second maintain must run nothing.",
             "3.C09"),
     "C17": ("index-bound oracle (every new index < running peak of not-yet-dead entities) + free-list completeness via the allocator hook",
-            "At every creation the returned index is compared with the running peak; at every quiescent point the hook verifies that every dead index below max_id is on the free list. Long histories and failing batches are weighted up.",
+            "At every creation the returned index is compared with the running peak; at every quiescent point the hook verifies that every dead index below max_id is on the free list. Long histories and failing batches are weighted up. Under concurrent creation (concurrency engine) exactly min(#creations, #free entries) creations must recycle an index and no dead index may be missing from the free list at the quiescent point.",
             "3.C17"),
 }
 
 TEXT.update({
     "C04": ("differential monitor: every storage kind / wrapper combination against a BTreeMap over arbitrary operation sequences, slice views and dense-table hook included",
-            "Return values (incl. replaced / removed value ids), mask, count, emptiness and every lookup are compared with a plain map after every operation of seeded random sequences over 17 storage/wrapper combinations and dense / sparse / layer-boundary index sets; as_slice / as_mut_slice views and the DenseVecStorage index tables (verif-hooks self-check) are compared too. Thorough adds release, far indices (>262144) and ASan.",
+            "Return values (incl. replaced / removed value ids), mask, count, emptiness and every lookup are compared with a plain map after every operation of seeded random sequences over 17 storage/wrapper combinations and dense / sparse / layer-boundary index sets; as_slice / as_mut_slice views and the DenseVecStorage index tables (verif-hooks self-check) are compared too. Small Miri stage in the quick tier; thorough adds far indices (>262144) and ASan. An insertion whose default-filler construction panics (injected) must leave the map unchanged (fault-grid stage).",
             "3.C04"),
     "C06": ("set-algebra oracle over self-identifying join items (order, multiplicity, own components, mutation locality) for macro-generated join shapes of every arity",
             "For every shape and membership assignment the expected ascending index list is computed with BTreeSet algebra on the model; every yielded item must sit at its position, each member slot must carry that index's own component (by value id), optional members must be reported correctly, writes through items must land on that entity only (full storage comparison afterwards); lending joins must visit the same indices and get(entity) must answer exactly for alive-and-in-intersection.",
@@ -44,22 +44,22 @@ TEXT.update({
             "Each worker reports (index, component ids, rayon thread index); after the parallel join every index of the sequential intersection must have been delivered exactly once, each item must carry that index's own components, and all writes made by workers must be visible in the storages. Pool sizes 1-64 and seeded per-item delays vary the split tree, which is observed (distinct partition signatures) but not controlled. Thorough adds ThreadSanitizer.",
             "3.C07"),
     "C16": ("order-sensitive accumulation model (amount = sequence, += appends) + ledger for by-value consumption, structural hook on the change set's dense storage",
-            "After every collect / extend / add / clear the change set's mask and every accumulated sequence must equal the per-entity fold in arrival order; shared, mutable, by-value (complete and partial) joins, alone and with storages and entities, must pair each sum with its own entity exactly once; the ledger shows every amount is yielded or destroyed exactly once.",
+            "After every collect / extend / add / clear the change set's mask and every accumulated sequence must equal the per-entity fold in arrival order; shared, mutable, by-value (complete and partial) joins, alone and with storages and entities, must pair each sum with its own entity exactly once; the ledger shows every amount is yielded or destroyed exactly once; sequences of up to 160 pairs; ChangeSet::clear / drop / by-value join under injected destructor panics (fault-grid stage).",
             "3.C16"),
     "C19": ("fault enumeration of panicking destructors with a destruction ledger, exposure checks (join / lookup / slice views) and a re-synchronised model for continued use",
             "The k-th in-world destructor call of the operation panics once (instrumented Drop); after catch_unwind the ledger must show no value destroyed twice, everything the world still exposes must be ledger-live, the world must keep behaving like a map re-synchronised from what it exposes, and its teardown must not destroy anything twice. Leaks after a panic are allowed, as the property says.",
             "3.C19"),
     "C10": ("history monitor at the client boundary (pairwise distinctness, per-call postconditions, set and exactly-once equations after maintain) over scheduler-driven and free-running interleavings; TSan and Miri on the stress mode",
-            "Every thread records (call, result); handles must be pairwise distinct and alive for their creator at once, deletions of live handles must succeed, concurrent joins must see every entity alive for the joining thread; after maintain the alive set must equal initial + created - delete-requested, every queued action must have run exactly once, and the allocator hook invariants must hold. Interleavings between the atomic steps of allocate_atomic / kill_atomic / the CAS loops are driven by a seeded token-passing scheduler through the verif-hooks yield points (sampled, counted, not exhaustive); free-running stress, ThreadSanitizer and Miri cover dependency internals and weak-memory behaviours on a best-effort basis.",
+            "Every thread records (call, result); handles must be pairwise distinct and alive for their creator at once, deletions of live handles must succeed, concurrent joins must see every entity alive for the joining thread; after maintain the alive set must equal initial + created - delete-requested, every queued action must have run exactly once, and the allocator hook invariants must hold. Interleavings between the atomic steps of allocate_atomic / kill_atomic / the CAS loops are driven by a token-passing scheduler through the verif-hooks yield points: sampled with a seeded PRNG for random programs, and enumerated exhaustively (depth first) for ten small programs on three initial allocator states; free-running stress, ThreadSanitizer and Miri cover dependency internals and weak-memory behaviours on a best-effort basis.",
             "3.C10"),
     "C20": ("transcript differencing: lock-step worlds, interference from unrelated worlds/threads, and separate processes (different hash seeds, ASLR, debug vs release)",
-            "The canonical transcript of every handle, result, join sequence, event stream and serialised string of a history is compared between two worlds in one process, against a run disturbed by unrelated worlds on the same and another thread, and - by hash - across separate processes and build flavours.",
+            "The canonical transcript of every handle, result, join sequence, event stream and serialised string of a history is compared between two worlds in one process, against a run disturbed by unrelated worlds on the same and another thread, and - by hash - across separate processes and build flavours. The histories of the world engine (all creation / deletion paths, lazy updates) and of the storage engine (all storage kinds) are replayed twice per process (second run on another thread) and compared across processes as well.",
             "3.C20"),
     "C11": ("overlap monitor (per-storage reader/writer counters, logical-clock intervals, torn-write tokens) inside generated systems + borrow-state probe of SystemData declarations",
             "Random system graphs are dispatched on pools of 1-32 threads; each system updates atomic reader/writer counters for exactly the storages it holds, writes and re-validates unique tokens, and stamps enter/exit from a logical clock; after each dispatch exactly-once, conflict-pair disjointness, dependency, barrier and thread-local order are checked, panics escaping dispatch are violations, and for each storage handle type the real borrow state after fetch() is compared with reads()/writes(). Thorough adds ThreadSanitizer.",
             "3.C11"),
     "C12": ("event-stream monitor: expected Inserted/Removed sequence and Modified set per operation window vs the channel, replay-reproduces-membership check",
-            "A reader registered before the history is read after every operation; the Inserted/Removed subsequence must equal the model's exactly (order and multiplicity), the set of Modified ids must equal the set of components handed out mutably (deferred wrapper: actually dereferenced mutably), nothing may appear while emission is off, and replaying I/R over the membership at registration must reproduce the mask.",
+            "A reader registered before the history is read after every operation; the Inserted/Removed subsequence must equal the model's exactly (order and multiplicity), the set of Modified ids must equal the set of components handed out mutably (deferred wrapper: actually dereferenced mutably), nothing may appear while emission is off, and replaying I/R over the membership at registration must reproduce the mask - also across caught destructor panics (fault-grid stage with a reader attached).",
             "3.C12"),
     "C13": ("ordered record of restricted-join activity replayed against the component map and the event model",
             "Restricted views are joined sequentially and lending, read-only and mutable, with seeded subsets of get / get_mut / get_other / get_other_mut; visited indices must equal the mask, reads equal direct lookups, writes land only on their entity, other-entity lookups follow the aliveness and membership rules, the mask is unchanged, and on tracked storages Modified appears exactly for the items fetched mutably.",
